@@ -31,6 +31,7 @@ def shards(tier, seed):
                 out.append({"name": f"{kind}-{cb}-{part}", "kind": kind, "cb": cb, "part": part, "tier": tier, "seed": seed})
         out.append({"name": f"{kind}-allcuts", "kind": kind, "cb": "ok", "allcuts": True, "tier": tier, "seed": seed})
         out.append({"name": f"{kind}-long", "kind": kind, "cb": "raise_some", "long": True, "tier": tier, "seed": seed})
+        out.append({"name": f"{kind}-long-slow", "kind": kind, "cb": "slow", "long": True, "tier": tier, "seed": seed})
     out.append({"name": "conformance-real-tcp", "conformance": True, "tier": tier, "seed": seed})
     return out
 
@@ -190,7 +191,7 @@ def run_one(kind, stream, cuts, idle_steps, settings, cb):
                 await asyncio.sleep(0)
             if idle_steps == 0 and len(cuts) < 300:
                 await asyncio.sleep(0)
-        await asyncio.sleep(5.0)                 # let a slow callback drain the queue
+        await asyncio.sleep(5.0 + 0.03 * len(stream) / 13)     # let a slow callback (0.02 s per message) drain the queue
         await sim.call("close")
     return simgw.run_session(kind, scenario, client_kwargs=settings, recv_cb=cb)
 
@@ -205,8 +206,8 @@ def run_shard(spec, acc):
     if spec.get("long"):
         # one client instance, hundreds of packets with many undeliverable ones in between: what is delivered must not
         # depend on how much (or how much garbage) the client has already processed
-        for rep in range(2 if quick else 10):
-            packets, pool = build_stream(kind, dbx, rng, 300 if quick else 1200)
+        for rep in range(1 if quick else 6):
+            packets, pool = build_stream(kind, dbx, rng, 1000 if quick else 2500)      # several hundred deliverable messages in one burst
             extra = []
             for pkt in packets:
                 extra.append(pkt)
